@@ -107,6 +107,91 @@ class FmtResult:
     def pyvc_isinstance(self, t):
         return t in (str, object)
 
+    # ---- the same text as a piecewise Text (needed when the library goes on to
+    # split / parse what it formatted): %0Nd of a value proved to be in
+    # 0..10**N-1 is an N-digit field; %s of a text is that text
+    def as_text(self, E, st):
+        import re as _re
+        from .values import IntStr, trunc_int, is_z3
+        out = []
+        tpl = Text.of(self.template)
+        if tpl is None:
+            raise OutOfReach("formatted text with an opaque template")
+        for pc in tpl.pieces:
+            if not isinstance(pc, str):
+                out.append(pc)
+                continue
+            pos = 0
+            for m in _re.finditer(r"%(?:\((\w+)\))(0?)(\d*)([ds])|%%", pc):
+                out.append(pc[pos:m.start()])
+                pos = m.end()
+                if m.group(0) == "%%":
+                    out.append("%")
+                    continue
+                name, zero, width, conv = m.groups()
+                v = self.mapping[name]
+                if conv == "s":
+                    t = Text.of(v)
+                    if t is None:
+                        if is_z3(v) and z3.is_int(v):
+                            t = Text([IntStr(v)])
+                        elif isinstance(v, (int, float)) and not isinstance(v, bool):
+                            t = Text([str(v)])
+                        else:
+                            raise OutOfReach("%%s of %r" % (type(v).__name__,))
+                    out.append(t)
+                    continue
+                if not is_z3(v):
+                    out.append(("%" + zero + width + "d") % v)
+                    continue
+                w = int(width or 0)
+                vi = trunc_int(v)
+                if zero and w:
+                    fits = z3.And(vi >= 0, vi < 10 ** w)
+                    if E.decide(st, fits) is not True:
+                        # assert, then assume: the value fits the field width
+                        E.oblige("%s.format[%%(%s)0%dd fits]" % (E.cur_name, name, w), st, fits,
+                                 kind="safety")
+                        st.assume(fits)
+                    out.append(DigitField(w, vi))
+                elif not w:
+                    out.append(IntStr(vi))
+                else:
+                    raise OutOfReach("%%%s%sd of a value not known to fit" % (zero, width))
+            if "%" in pc[pos:]:
+                raise OutOfReach("unsupported conversion in %r" % pc[pos:])
+            out.append(pc[pos:])
+        return Text(out)
+
+    def _view(self, E, st):
+        return self.as_text(E, st).simplest()
+
+    def pyvc_attr(self, E, name, st):
+        v = self._view(E, st)
+        if isinstance(v, str):
+            from .values import BoundMethod, BuiltinRef
+            return [(st, BoundMethod(BuiltinRef("str." + name), v))]
+        return v.pyvc_attr(E, name, st)
+
+    def pyvc_contains(self, E, item, st):
+        v = self._view(E, st)
+        if isinstance(v, str):
+            return [(st, item in v)]
+        return v.pyvc_contains(E, item, st)
+
+    def pyvc_slice(self, E, lo, hi, step, st):
+        return Text.of(self._view(E, st)).pyvc_slice(E, lo, hi, step, st)
+
+    def pyvc_binop(self, E, op, other, st, swapped):
+        if isinstance(other, FmtResult):
+            other = other._view(E, st)
+        return Text.of(self._view(E, st)).pyvc_binop(E, op, other, st, swapped)
+
+    def pyvc_compare(self, E, op, other, st, swapped):
+        if isinstance(other, FmtResult):
+            other = other._view(E, st)
+        return Text.of(self._view(E, st)).pyvc_compare(E, op, other, st, swapped)
+
 
 # ---------------------------------------------------------------- piecewise texts
 # A Text is a string known as a SEQUENCE OF PIECES: concrete str pieces and
@@ -219,10 +304,22 @@ class Text:
         return [(st, bool(self.pieces))]
 
     def pyvc_binop(self, E, op, other, st, swapped):
+        if isinstance(other, FmtResult):
+            other = other._view(E, st)
         o = Text.of(other)
         if isinstance(op, ast.Add) and o is not None:
             r = Text(o.pieces + self.pieces) if swapped else Text(self.pieces + o.pieces)
             return [(st, r.simplest())]
+        if isinstance(op, ast.Mod) and not swapped and E.is_dict(other, st):
+            import re as _re
+            d = st.obj(other).d
+            for pc in self.pieces:
+                if isinstance(pc, str):
+                    for nm in _re.findall(r"%\((\w+)\)", pc):
+                        if nm not in d:
+                            E.raise_exc(st, "KeyError", None)
+                            return []
+            return [(st, FmtResult(self, dict(d)))]
         raise OutOfReach("string operation on a piecewise text")
 
     def pyvc_compare(self, E, op, other, st, swapped):
@@ -367,10 +464,21 @@ def text_equal(E, a, b, st):
     """Equality of two piecewise texts with the same piece structure (numbers are
     compared by value: the decimal spelling of an integer is injective)."""
     from .values import IntStr, z_and
-    if len(a.pieces) != len(b.pieces):
+    def skeleton(t):
+        return "".join(c for p in t.pieces if isinstance(p, str) for c in p
+                       if not c.isdigit() and c not in ",.-")
+    if len(a.pieces) != len(b.pieces) or any(
+            type(p) is not type(q) for p, q in zip(a.pieces, b.pieces)):
         if all(isinstance(p, str) for p in a.pieces + b.pieces):
             return "".join(a.pieces) == "".join(b.pieces)
+        # symbolic pieces spell digits (and a sign / decimal mark) only: texts whose
+        # other characters differ are different whatever the digits are
+        if skeleton(a) != skeleton(b):
+            return False
         raise OutOfReach("equality of piecewise texts of different structure: %r / %r" % (a, b))
+    if [p for p in a.pieces if isinstance(p, str)] != [p for p in b.pieces if isinstance(p, str)] \
+            and skeleton(a) != skeleton(b):
+        return False
     cs = []
     for p, q in zip(a.pieces, b.pieces):
         if isinstance(p, str) and isinstance(q, str):
